@@ -40,7 +40,7 @@ ASSUMPTIONS = [
     "loop) and therefore counted as skipped, not explored",
     "malformed typed values are explored as the LAST action of a history (from every state that the search expands); inner "
     "positions of a history use one or two representative valid values per type",
-    "jump-to is offered in the first two (quick) / three (thorough) positions of a history, the info screen's jump-to in the first (quick) / first two (thorough)",
+    "jump-to is offered in the first two positions of a history (quick) / everywhere (thorough), the info screen's jump-to in the first (quick) / first three (thorough)",
     "'denotes v' uses Python's int(v, base) / float(v) on both sides (the validator's own reading); textual forms such as 1_0 are C06's subject",
     "conformance through textual.Pilot as in C16",
 ]
@@ -185,8 +185,8 @@ def items(tier: str, seed: int):
 
 def pairs(tier: str):
     depth = 4 if tier == "quick" else 5
-    jump_prefix = 2 if tier == "quick" else 3
-    info_prefix = 1 if tier == "quick" else 2
+    jump_prefix = 2 if tier == "quick" else 5
+    info_prefix = 1 if tier == "quick" else 3
     out = []
     for t in trees():
         files = dict(kgen.render(t["prog"]))
@@ -314,6 +314,8 @@ def oracle(item: Dict[str, Any], h: tuple, st: headless.Harness, pre: Optional[D
     where = f"[{item['tree']} / {item['sdk_kind']}] after {headless.fmt_history(h) or 'start'}"
     act = headless.action_family(h[-1], st.last_target_kind) if h else "init"
     ctx = {"menu": st.last_menu_kind if h else "top", "target": (st.last_target_kind if act != "leave" else None) if h else None}
+    if act in ("info_jump", "jump", "load", "show_all", "save", "quit"):
+        ctx["menu"] = "-"  # these actions do not depend on the kind of menu they are issued from
 
     def viol(sig: Dict[str, Any], msg: str) -> None:
         r.violation(sig, f"{where}: {msg}", mk_case(item, h))
